@@ -31,7 +31,7 @@ CHECKS.update({
 })
 CHECKS.update({
  "C01": dict(cat="exploration", tech="small-scope exhaustive input exploration (all strings up to n symbols x 15 scanner contexts x versions x callback) + every byte-prefix of the LR corpus + every (LALR state, terminal) cell, under a deterministic step budget",
-   text="Every string of <= 3 symbols over a 67-symbol alphabet (all byte literals of scanner.rl, class representatives, mode-switching fragments) from each of 15 start contexts under 7.4/5.6/7.2 x {callback, nil} (thorough: + 4 symbols under 7.4, <= 5 symbols over the 28-symbol core), <= 2 core symbols under all 12 versions; every byte-prefix of every rule-level corpus program (thorough 2-path) in three line-terminator layouts; every (state, terminal) cell of both LALR automata; a scaling ladder. No panic, scanner restarts + Lex calls <= 64+16*len, input buffer unchanged, err == nil. Inputs longer than the bounds are not explored.",
+   text="Every string of <= 3 symbols over a 70-symbol alphabet (all byte literals of scanner.rl, class representatives, mode-switching fragments) from each of 15 start contexts under 7.4/5.6/7.2 x {callback, nil} (thorough: + 4 symbols under 7.4, <= 5 symbols over the 28-symbol core), <= 2 core symbols under all 12 versions; every byte-prefix of every rule-level corpus program (thorough 2-path) in three line-terminator layouts; every (state, terminal) cell of both LALR automata; a scaling ladder. No panic, scanner restarts + Lex calls <= 64+16*len, input buffer unchanged, err == nil. Inputs longer than the bounds are not explored.",
    note="Trusted: the overlay hooks (Tick after `_again:`, Point in Parser.Lex) see every scanner restart; eight crash/hang root causes found by this check were repaired (fixed: lines in KNOWN_FINDINGS.txt).", ref="§C01"),
  "C10": dict(cat="exploration", tech="exhaustive exploration of the sentences both LALR automata accept (rules, 2-paths, trivia and lexeme deviations), trees under 5.6 and 7.4 compared field by field",
    text="Every program of the E-lr corpora of both grammars (+1-deviations of trivia and lexemes, specials) that both reference LR drivers accept on the tokens the real scanner returns, minus a token-level superset of uniform-variable-syntax and yield-as-operator patterns: the 5.6 and 7.4 trees must be identical in kinds, nesting, values, tokens, free-floating tokens and positions, and both error lists equal.",
